@@ -35,6 +35,7 @@ struct Outcome {
     enum Kind { OK, VIOL, INTERNAL, TIMEOUT } kind = OK;
     std::string cls, msg;
     bool nt = false;
+    std::string raw;          // full stderr of a child that died without a verdict (sanitizer report)
     std::map<std::string, long> labels;
     long skipped = 0, ops = 0;
 };
@@ -115,6 +116,10 @@ Outcome parse_report(const std::string &rep, int status) {
     o.kind = Outcome::VIOL;
     if (WIFSIGNALED(status) && (WTERMSIG(status) == SIGXCPU || WTERMSIG(status) == SIGKILL)) { o.cls = "HANG"; o.msg = "case exceeded its CPU-time budget"; return o; }
     o.cls = classify_stderr(err, status);
+    // a ThreadSanitizer report counts only if a frame of either access lies in tulz; a race between harness frames is
+    // a defect of the machinery: internal error, neither pass nor violation
+    if (o.cls.rfind("TSAN:", 0) == 0 && err.find("tulz::") == std::string::npos) { o.kind = Outcome::INTERNAL; o.cls = "HARNESS_RACE"; }
+    o.raw = err;
     if (err.size() > 1500) err.resize(1500);
     for (char &ch : err) if (ch == '\n') ch = '|';
     o.msg = err;
@@ -264,6 +269,7 @@ int main(int argc, char **argv) {
         char name[64]; snprintf(name, sizeof name, "%s-%016llx.case", prop.c_str(), (unsigned long long)fnv1a(text));
         failFile = replayDir + "/" + name;
         std::ofstream f(failFile); f << "# " << lastOut.cls << "\n" << text; f.close();
+        if (!lastOut.raw.empty()) { std::ofstream rf(failFile + ".report.txt"); rf << lastOut.raw; }
         failSig = lastOut.cls; failMsg = lastOut.msg;
     }
 
